@@ -1,6 +1,12 @@
 """C14 harness: CubicMeshPDENonStatio.get_batch against the product/pairing model of the
 three sub-batches drawn separately from the same generator state, over histories."""
 import random
+
+
+def flag_value(b, form):
+    """the pairing / product switch is a truth value: a Python bool, a numpy bool or an integer 0 / 1 mean the same"""
+    import numpy as np
+    return {"bool": bool(b), "npbool": np.bool_(b), "int": int(b)}[form]
 from common import jx, cq, cnat, cbool, clist, write_cases, default_matches_known
 matches_known = default_matches_known
 
@@ -12,7 +18,7 @@ def build(cfg):
         key=jax.random.PRNGKey(cfg["seed"]), n=cfg["n"], nb=cfg["nb"], nt=cfg["nt"],
         omega_batch_size=cfg["bx"], omega_border_batch_size=cfg["bb"], temporal_batch_size=cfg["bt"],
         dim=d, min_pts=tuple([-1.0, 0.5][:d]), max_pts=tuple([2.0, 1.5][:d]), tmin=0.0, tmax=3.0,
-        method=cfg["method"], cartesian_product=cfg["cartesian"])
+        method=cfg["method"], cartesian_product=flag_value(cfg["cartesian"], cfg.get("flag_form", "bool")))
 
 
 def observe(cfg):
@@ -94,7 +100,7 @@ def configs(tier, rng):
         else:
             bb = (rng.randint(1, 3) if cart else bt) if border else None
             nb = 4 * rng.randint(bb, bb + 2) if border else None
-        out.append(dict(dim=dim, cartesian=cart, bt=bt, bx=bx, bb=bb, nb=nb, nt=rng.randint(bt, bt + 4), n=rng.randint(bx, bx + 5),
+        out.append(dict(flag_form=["bool", "bool", "npbool", "int"][len(out) % 4], dim=dim, cartesian=cart, bt=bt, bx=bx, bb=bb, nb=nb, nt=rng.randint(bt, bt + 4), n=rng.randint(bx, bx + 5),
                         method=rng.choice(["uniform", "uniform", "grid"]) if dim == 1 else "uniform",
                         history=rng.randint(0, 5), seed=rng.randrange(1 << 30)))
     return out
